@@ -11,21 +11,37 @@ from typing import Any, Iterator
 
 _SETUP_DONE: dict = {}
 
+def ensure_root() -> str:
+    """One scratch root per check run, created by the parent process (vf.report calls this before any
+    pool is forked) and removed by it at exit: pool workers leave through os._exit and never run
+    their own atexit handlers, so they only ever create sub-directories of the parent's root."""
+    root = os.environ.get("VERIF_IR_ROOT", "")
+    if root and os.path.isdir(root):
+        return root
+    root = tempfile.mkdtemp(prefix="verif-ir-")
+    os.environ["VERIF_IR_ROOT"] = root
+    pid = os.getpid()
+    import atexit
+
+    def cleanup() -> None:
+        if os.getpid() == pid:
+            shutil.rmtree(root, ignore_errors=True)
+
+    atexit.register(cleanup)
+    return root
+
 
 def setup_cwd() -> str:
     """The mypyc test fixtures expect cwd/tmp/builtins.pyi; create a scratch cwd once per process."""
     if "dir" in _SETUP_DONE:
         return _SETUP_DONE["dir"]
     repo = os.environ.get("VERIF_REPO", "/repo")
-    d = tempfile.mkdtemp(prefix="verif-ir-")
+    d = tempfile.mkdtemp(prefix="w-", dir=ensure_root())
     os.makedirs(os.path.join(d, "tmp"))
     shutil.copy(os.path.join(repo, "mypyc/test-data/fixtures/ir.py"), os.path.join(d, "tmp", "builtins.pyi"))
     _SETUP_DONE["dir"] = d
     _SETUP_DONE["old"] = os.getcwd()
     os.chdir(d)
-    import atexit
-
-    atexit.register(lambda: shutil.rmtree(d, ignore_errors=True))
     return d
 
 
